@@ -186,7 +186,8 @@ func labelsWithoutConfigParam(lbls labels.Labels, param url.Values) labels.Label
 		if strings.HasPrefix(l.Name, model.ParamLabelPrefix) {
 			// a config param is added again by the prometheus of the shard, so it is not shipped,
 			// unless relabeling gave it another value, which must reach the shard
-			if v, ok := param[l.Name[len(model.ParamLabelPrefix):]]; ok && (len(v) == 0 || v[0] == l.Value) {
+			// (a param declared with an empty list is not added by prometheus at all)
+			if v, ok := param[l.Name[len(model.ParamLabelPrefix):]]; ok && len(v) > 0 && v[0] == l.Value {
 				continue
 			}
 		}
